@@ -29,6 +29,7 @@ func checkC19(p *Program, r *Report) {
 	r.Explain("C19: R1 every entry K: reflect.ValueOf(X) / reflect.TypeOf(X) stored in env.Packages[P] / env.PackageTypes[P] resolves (go/types) to the exported object or named type K of the package whose import path is P — exhaustive over all table entries of the loaded build configuration. " +
 		"R2 P is a string constant and all entries of the table come from package P. " +
 		"R3 every builtin the statement lists is defined by core.Import with a function value of the contract's result type; no process-exit call is reachable in core/packages table code. " +
+		"R6 a byte of a string converted to a rune only where the string is known to hold a single byte (the first character of a string is its first rune). R7 strconv.FormatFloat with bitSize 32 only for a value that is a float32. " +
 		"R5 an integer read from a numeral string is parsed exactly: a strconv.ParseFloat whose result is truncated to an integer lies on the failure edge of strconv.ParseInt of the same string. " +
 		"R4 structural clauses of range/keys/toSlice on SSA: argument-count and zero-step rejections dominate the loop; the loop is a counting loop appending its own induction variable with strict bounds in both directions; keys copies one element per MapKeys entry; toSlice stores Zero on the non-convertible edge.")
 	r.Assume("numeric behaviour of range near the int64 limits and of toInt/toFloat/toString versus strconv/fmt is value-level and not decided")
@@ -390,6 +391,7 @@ func c19Builtin(p *Program, r *Report) {
 	r.OK("C19.R3", "exit|core", "core", "no os.Exit/log.Fatal/runtime.Goexit call in package core")
 
 	c19ExactFirst(p, r)
+	c19TextConversions(p, r)
 	// R4: structural clauses on SSA
 	lits := map[string]*ssa.Function{}
 	for _, fn := range SrcFuncs(sp) {
@@ -888,4 +890,115 @@ func sameStringArg(a, b ssa.Value) bool {
 		return v
 	}
 	return src(a) == src(b)
+}
+
+// c19TextConversions: R6 the first character of a string is its first rune: a byte of a string (s[i]) converted to a rune is
+// reported unless the string is known to be a single byte; R7 a float64 is formatted with bitSize 64 (bitSize 32 only for a value
+// that is a float32).
+func c19TextConversions(p *Program, r *Report) {
+	n6, n7 := 0, 0
+	for _, suffix := range []string{"core", "vm"} {
+		sp := p.SSAPkg(suffix)
+		if sp == nil {
+			continue
+		}
+		for _, fn := range SrcFuncs(sp) {
+			k6, k7 := 0, 0
+			for _, b := range fn.Blocks {
+				for _, in := range b.Instrs {
+					switch x := in.(type) {
+					case *ssa.Convert:
+						// rune(s[i])
+						bt, ok := x.Type().Underlying().(*types.Basic)
+						if !ok || bt.Kind() != types.Int32 {
+							continue
+						}
+						var strV ssa.Value
+						switch lk := x.X.(type) {
+						case *ssa.Lookup:
+							strV = lk.X
+						case *ssa.Index:
+							strV = lk.X
+						}
+						if strV == nil {
+							continue
+						}
+						if st, ok := strV.Type().Underlying().(*types.Basic); !ok || st.Kind() != types.String {
+							continue
+						}
+						n6++
+						k6++
+						r.Check(singleByteString(b, strV), "C19.R6", fmt.Sprintf("%s|byte of a string taken as a rune #%d", funcName(fn), k6), p.Pos(x.Pos()), "only where the string is known to hold one byte",
+							"a byte of a string is converted to a rune: for a string that starts with a multi-byte character the result is the first UTF-8 byte, not the first character")
+					case *ssa.Call:
+						o := calleeObj(x)
+						if o == nil || !isFuncNamed(o, "strconv", "", "FormatFloat") || len(x.Call.Args) != 4 {
+							continue
+						}
+						bs, ok := x.Call.Args[3].(*ssa.Const)
+						if !ok || bs.Value == nil || bs.Int64() != 32 {
+							continue
+						}
+						n7++
+						k7++
+						r.Check(isFloat32Value(x.Call.Args[0], b), "C19.R7", fmt.Sprintf("%s|FormatFloat bitSize 32 #%d", funcName(fn), k7), p.Pos(x.Pos()), "the value is a float32",
+							"a float64 is formatted as if it were a float32: it is rounded to about 7 significant digits (and overflows to Inf beyond the float32 range)")
+					}
+				}
+			}
+		}
+	}
+	r.Note("C19.R6 byte-to-rune sites", n6)
+	r.Note("C19.R7 FormatFloat bitSize 32 sites", n7)
+}
+
+// singleByteString: in block b the string s is known to have length <= 1 (the branches with len(s) > 1 / < 1 have left).
+func singleByteString(b *ssa.BasicBlock, s ssa.Value) bool {
+	gt1, lt1 := false, false
+	for d := b; d != nil && d.Idom() != nil; d = d.Idom() {
+		id := d.Idom()
+		iff, ok := id.Instrs[len(id.Instrs)-1].(*ssa.If)
+		if !ok {
+			continue
+		}
+		bo, ok := iff.Cond.(*ssa.BinOp)
+		if !ok {
+			continue
+		}
+		lc, ok := bo.X.(*ssa.Call)
+		if !ok {
+			continue
+		}
+		if bi, ok := lc.Call.Value.(*ssa.Builtin); !ok || bi.Name() != "len" || lc.Call.Args[0] != s {
+			continue
+		}
+		c, ok := bo.Y.(*ssa.Const)
+		if !ok || c.Value == nil || c.Int64() != 1 {
+			continue
+		}
+		if bo.Op == token.GTR && edgeOnly(id, 1, d) {
+			gt1 = true
+		}
+		if bo.Op == token.LSS && edgeOnly(id, 1, d) {
+			lt1 = true
+		}
+		if bo.Op == token.EQL && edgeOnly(id, 0, d) {
+			gt1, lt1 = true, true
+		}
+	}
+	_ = lt1
+	return gt1
+}
+
+// isFloat32Value: v is a float32 widened to float64, or the Float() of a reflect.Value known (by a dominating kind test) to be a Float32.
+func isFloat32Value(v ssa.Value, b *ssa.BasicBlock) bool {
+	if cv, ok := v.(*ssa.Convert); ok {
+		if bt, ok := cv.X.Type().Underlying().(*types.Basic); ok && bt.Kind() == types.Float32 {
+			return true
+		}
+	}
+	if c, ok := v.(*ssa.Call); ok && reflectMethod(c) == "Float" {
+		return dominatedByKind(b, 13)
+	}
+	return false
 }
